@@ -32,7 +32,8 @@ type AUser struct {
 	Badge     *ABadge   `gorm:"polymorphic:Owner"`
 	Nick      string    // not a key: referenced by AGift.UserNick (references: on a non-primary column; duplicates and "" occur)
 	Gifts     []AGift   `gorm:"foreignKey:UserNick;references:Nick"`
-	Memos     []AMemo   `gorm:"polymorphic:Owner;foreignKey:Nick"` // polymorphic id column holds the owner's Nick, not its ID
+	Clubs     []AClub   `gorm:"many2many:a_user_clubs;joinForeignKey:UserID;references:Code;joinReferences:ClubCode"` // far side referenced by a NON-UNIQUE column
+	Memos     []AMemo   `gorm:"polymorphic:Owner;foreignKey:Nick"`                                                    // polymorphic id column holds the owner's Nick, not its ID
 	Stamp     *AStamp   `gorm:"polymorphic:Owner;foreignKey:Nick"`
 	Extra     AExtra    `gorm:"embedded;embeddedPrefix:extra_"`
 }
@@ -43,6 +44,20 @@ type AExtra struct {
 	MentorID *uint
 	Mentor   *AUser `gorm:"foreignKey:MentorID"`
 }
+
+// AClub is referenced by its Code, which several clubs may share.
+type AClub struct {
+	ID   uint `gorm:"primaryKey;autoIncrement:false"`
+	Tag  int
+	Code string
+}
+
+type AUserClub struct {
+	UserID   uint   `gorm:"primaryKey;autoIncrement:false"`
+	ClubCode string `gorm:"primaryKey"`
+}
+
+func (AUserClub) TableName() string { return "a_user_clubs" }
 
 type AMemo struct {
 	ID        uint `gorm:"primaryKey;autoIncrement:false"`
@@ -413,16 +428,17 @@ type polyRef struct {
 }
 
 type model struct {
-	name   string
-	table  string
-	typ    reflect.Type
-	pk     []string
-	soft   bool
-	isJoin bool
-	fks    []fk
-	poly   *polyRef
-	rels   []*rel
-	alt    []string // non-key columns that relations reference (`references:`): filled from the key alphabet, duplicates and "" allowed
+	name        string
+	table       string
+	typ         reflect.Type
+	pk          []string
+	soft        bool
+	isJoin      bool
+	fks         []fk
+	poly        *polyRef
+	rels        []*rel
+	altNonEmpty bool     // alt columns never hold ""
+	alt         []string // non-key columns that relations reference (`references:`): filled from the key alphabet, duplicates and "" allowed
 	// generation bounds
 	minRows, maxRows int
 }
@@ -443,8 +459,9 @@ type family struct {
 	roots  []string // models that carry relations (AutoMigrate these)
 	byName map[string]*model
 	// nested preload paths offered per root model
-	nested map[string][]string
-	ddl    []string // captured once per process
+	extraRoots []string // further root models offered by genLoad
+	nested     map[string][]string
+	ddl        []string // captured once per process
 	// setup runs on every fresh handle before anything else (SetupJoinTable)
 	setup func(db *gorm.DB) error
 }
@@ -533,6 +550,17 @@ func famA() *family {
 		rels: []*rel{{name: "Giver", kind: belongsTo, target: "AUser", own: []string{"UserNick"}, tgt: []string{"Nick"}}}}
 	f.byName[gift.name] = gift
 	f.models = append(f.models, gift)
+	club := &model{name: "AClub", table: "a_clubs", typ: reflect.TypeOf(AClub{}), pk: []string{"ID"}, minRows: 2, maxRows: 5, alt: []string{"Code"}, altNonEmpty: true}
+	uclub := &model{name: "AUserClub", table: "a_user_clubs", typ: reflect.TypeOf(AUserClub{}), isJoin: true, pk: []string{"UserID", "ClubCode"}, maxRows: 7,
+		fks: []fk{{[]string{"UserID"}, "AUser", []string{"ID"}}, {[]string{"ClubCode"}, "AClub", []string{"Code"}}}}
+	// insertion order: clubs before their join rows, join models last
+	f.byName[club.name], f.byName[uclub.name] = club, uclub
+	f.models = append(f.models, club, uclub)
+	u.rels = append(u.rels, &rel{name: "Clubs", kind: many2many, target: "AClub", own: []string{"ID"}, tgt: []string{"Code"},
+		join: "AUserClub", jOwn: []string{"UserID"}, jRel: []string{"ClubCode"}})
+	f.extraRoots = []string{"AGift"}
+	f.nested["AGift"] = []string{"Giver.Gifts", "Giver.Boss", "Giver.Clubs"}
+	f.nested["AUser"] = append(f.nested["AUser"], "Team.Clubs", "Gifts.Giver")
 	nick := []string{"Nick"}
 	u.rels = append(u.rels,
 		&rel{name: "Memos", kind: polyMany, target: "AMemo", own: nick, tgt: []string{"OwnerID"}, polyField: "OwnerType", polyValue: "a_users"},
